@@ -147,6 +147,16 @@ func init() {
 		it.stubsSeen["clock: logical (strictly increasing concrete readings)"] = true
 		return ok(nil)
 	})
+	reg(apiPkg+"ClockReading", func(it *Interp, g *G, fr *Frame, a []Value, cc *ssa.CallCommon) (Value, status) {
+		k := int(cint(a[0]))
+		if k < 0 || k >= len(it.clockReads) {
+			panic(unsupported("ClockReading(%d): only %d readings so far", k, len(it.clockReads)))
+		}
+		return ok(TimeV{NS: it.clockReads[k]})
+	})
+	reg(apiPkg+"ClockReadings", func(it *Interp, g *G, fr *Frame, a []Value, cc *ssa.CallCommon) (Value, status) {
+		return ok(goInt(len(it.clockReads)))
+	})
 	reg(apiPkg+"Cut", func(it *Interp, g *G, fr *Frame, a []Value, cc *ssa.CallCommon) (Value, status) {
 		panic(pathEnd{Kind: "cut", Label: argStr(a[0]), Msg: "path cut by the harness bound"})
 	})
